@@ -263,7 +263,7 @@ func cmdCheck(args []string) int {
 			run.lenient[qn] = true
 			if fc.Search != "" {
 				out, failing, _ := run.goTest(fc.Pkg, fc.Search, "", 0)
-				if failing != "" {
+				if failing != "" && run.onlyKnownFailures(fc.Search, out) == nil {
 					path := run.writeReplay(qn+"/shape", map[string]interface{}{"obligation": qn + "/shape", "reason": err.Error(), "search_test": fc.Search, "failing_input": json.RawMessage(failing), "test_output": tail(out, 4000), "confirmed": true})
 					run.violation(path, "")
 				}
@@ -457,7 +457,7 @@ func (run *checkRun) shapeMismatch(fc FuncClaim, qn, why string) {
 	}
 	if fc.Search != "" {
 		out, failing, _ := run.goTest(fc.Pkg, fc.Search, "", 0)
-		if failing != "" {
+		if failing != "" && run.onlyKnownFailures(fc.Search, out) == nil {
 			path := run.writeReplay(qn+"/shape", map[string]interface{}{"obligation": qn + "/shape", "reason": why, "search_test": fc.Search, "failing_input": json.RawMessage(failing), "test_output": tail(out, 4000), "confirmed": true})
 			run.violation(path, "")
 			return
@@ -658,6 +658,28 @@ func (run *checkRun) goTestFlags(pkg, test, input string, timeout time.Duration,
 	return out, failing, confirmed
 }
 
+// onlyKnownFailures: the harness output reports failures, and every failure class it reports is the witness of a known
+// finding recorded for this property and this harness.
+func (run *checkRun) onlyKnownFailures(test, out string) *Finding {
+	for _, fd := range loadFindings() {
+		if fd.Kind == "known" && fd.Property == run.cfg.ID && fd.Obligation == "bounded:"+test {
+			allKnown := true
+			for _, l := range strings.Split(out, "\n") {
+				if i := strings.Index(l, "VERIF-FAIL-CLASS: "); i >= 0 {
+					if strings.TrimSpace(l[i+len("VERIF-FAIL-CLASS: "):]) != fd.Witness {
+						allKnown = false
+					}
+				}
+			}
+			if allKnown && strings.Contains(out, "VERIF-FAIL-CLASS: ") {
+				fd := fd
+				return &fd
+			}
+		}
+	}
+	return nil
+}
+
 var boundedRe = regexp.MustCompile(`VERIF-BOUNDED: evaluations=(\d+) distinct=(\d+) failures=(\d+)`)
 
 func (run *checkRun) runBounded(b BoundedSpec) {
@@ -691,24 +713,11 @@ func (run *checkRun) runBounded(b BoundedSpec) {
 	run.bounded = append(run.bounded, rec)
 	if fl > 0 || failing != "" {
 		// known finding by witness?
-		for _, fd := range loadFindings() {
-			if fd.Kind == "known" && fd.Property == run.cfg.ID && fd.Obligation == "bounded:"+b.Test {
-				// every failure reported by the harness must carry the known witness class
-				allKnown := true
-				for _, l := range strings.Split(out, "\n") {
-					if i := strings.Index(l, "VERIF-FAIL-CLASS: "); i >= 0 {
-						if strings.TrimSpace(l[i+len("VERIF-FAIL-CLASS: "):]) != fd.Witness {
-							allKnown = false
-						}
-					}
-				}
-				if allKnown && strings.Contains(out, "VERIF-FAIL-CLASS: ") {
-					line := fmt.Sprintf("KNOWN-FINDING: property=%s %s", run.cfg.ID, knownText(fd, run.cfg.ID))
-					run.known = append(run.known, line)
-					fmt.Println(line)
-					return
-				}
-			}
+		if fd := run.onlyKnownFailures(b.Test, out); fd != nil {
+			line := fmt.Sprintf("KNOWN-FINDING: property=%s %s", run.cfg.ID, knownText(*fd, run.cfg.ID))
+			run.known = append(run.known, line)
+			fmt.Println(line)
+			return
 		}
 		var fi interface{} = failing
 		if json.Valid([]byte(failing)) {
